@@ -32,8 +32,8 @@ func profiles(prop string) []hist.Profile {
 	case "C01":
 		return []hist.Profile{
 			{Name: "loss", Ops: 90, Topics: 3, Subs: 4, POrdered: 0.3, PFilter: 0.4, PDL: 0.3, PRetry: 0.6,
-				Retentions: []time.Duration{0, hour, 10 * min}, Keys: []string{"", "", "k1", "k2"}, W: weights(nil)},
-			{Name: "loss-long", Ops: 220, Topics: 2, Subs: 3, POrdered: 0.3, PFilter: 0.3, PDL: 0.2, PRetry: 0.5,
+				Retentions: []time.Duration{0, hour, 10 * min}, Keys: []string{"", "", "k1", "k2"}, W: weights(nil), PublishFaultPct: 15},
+			{Name: "loss-long", Ops: 220, Topics: 2, Subs: 3, POrdered: 0.3, PFilter: 0.3, PDL: 0.2, PRetry: 0.5, PublishFaultPct: 10,
 				Keys: []string{"", "k1"}, W: weights(map[string]int{"job": 12, "bad": 6, "pull-wait": 4})},
 			{Name: "loss-idle-subscriptions", Ops: 100, Topics: 2, Subs: 4, POrdered: 0.2, PFilter: 0.2, PDL: 0.1, PRetry: 0.5,
 				TTLs: []time.Duration{min, 10 * min, hour}, Retentions: []time.Duration{0, hour}, Keys: []string{"", "k1"},
